@@ -38,10 +38,10 @@ TEXT = {
         "level_note": "Trusted: the Vec<u8> model. Sequences longer than the enumerated bound are only sampled.",
     },
     "C02": {
-        "engine": "vmux (SIM)",
+        "engine": "vmux (SIM + THR)",
         "technique": "offline history checker over recorded executions: position-addressed payloads, per (stream, direction) prefix/equality oracle, seeded schedule jitter and back-pressure",
         "design_ref": "DESIGN.md §4 C02, appendix A",
-        "level_text": "Thousands of seeded executions of the real Multiplexor pair over an in-memory WebSocket; every read is checked to be the exact continuation of its own stream (prefix at every moment, equality after clean shutdown + EOF, no cross-talk). Exploration of schedules/configurations, not exhaustive.",
+        "level_text": "Thousands of seeded executions of the real Multiplexor pair over an in-memory WebSocket; every read is checked to be the exact continuation of its own stream (prefix at every moment, equality after clean shutdown + EOF, no cross-talk); in a dedicated case the opener's flow-id generator repeats the id of a stream that is alive on both ends, and both streams must still carry their own data to the end; the connection task must not end on its own. Exploration of schedules/configurations, not exhaustive.",
         "level_note": "Trusted: the in-memory WebSocket preserves order per direction (as WebSocket does); the PRF makes corruption/reordering/cross-talk visible with overwhelming probability.",
     },
     "C03": {
@@ -62,7 +62,7 @@ TEXT = {
         "engine": "vmux (SIM)",
         "technique": "offline history checker against a pipe-with-half-close reference model; seeded close orders, empty and vectored-empty writes",
         "design_ref": "DESIGN.md §4 C05, appendix A",
-        "level_text": "Every read-EOF, write result and shutdown of every execution is checked against the reference model (EOF only after peer finish/abort/connection end and after all bytes of a clean shutdown; BrokenPipe after local shutdown or delivered peer Reset; opposite direction keeps working). Exploration.",
+        "level_text": "Every read-EOF, write result and shutdown of every execution is checked against the reference model (EOF only after peer finish/abort/connection end and after all bytes of a clean shutdown; BrokenPipe after local shutdown or delivered peer Reset; opposite direction keeps working). An extra scenario drops the Multiplexor while streams are still held and read, with the peer writing, sending datagrams and opening streams until it learns of the end: every byte that Push frames carried to the endpoint must be read before end-of-stream. Exploration.",
         "level_note": "The 'write after delivered Reset must fail' rule relies on SIM's single thread (log order == execution order).",
     },
     "C06": {
@@ -83,7 +83,7 @@ TEXT = {
         "engine": "vmux (SIM)",
         "technique": "fault enumeration over recorded executions: one re-execution per (message index, fault kind); pending-operation outcome oracle; flush-on-drop order oracle",
         "design_ref": "DESIGN.md §4 C08, appendix A",
-        "level_text": "For every message index of every base execution and each of 8 fault kinds the real endpoint is re-run with the fault injected at that point; the run must reach quiescence with nothing pending and with outcomes from DESIGN appendix A.3. Drop-flush runs compare queued vs delivered frames. Enumeration of crash points over explored executions, not of all executions.",
+        "level_text": "For every message index of every base execution and each of 8 fault kinds the real endpoint is re-run with the fault injected at that point; the run must reach quiescence with nothing pending and with outcomes from DESIGN appendix A.3. Drop-flush runs compare queued vs delivered frames, also with datagrams and a stream request from the peer arriving at the moment of the drop. Enumeration of crash points over explored executions, not of all executions.",
         "level_note": "Base executions are sampled (seeded); the cut is at message granularity of the endpoint's WebSocket, not inside a frame.",
     },
     "C11": {
@@ -97,7 +97,7 @@ TEXT = {
         "engine": "vmux (SIM)",
         "technique": "offline history checker matching each bind result to the peer application's decision for that very request; scripted-RNG id re-use",
         "design_ref": "DESIGN.md §4 C15, appendix A",
-        "level_text": "Each request's result is compared with the logged decision (accept/reject/drop/never/binds disabled), the fields and flow id shown to the peer with the request, and ids are re-issued immediately after resolution and at quiescent points. Exploration.",
+        "level_text": "Each request's result is compared with the logged decision (accept/reject/drop/never/binds disabled), the fields and flow id shown to the peer with the request, and ids are re-issued immediately after resolution and at quiescent points; bind hosts of 0-39 bytes; the connection task must not end on its own. Exploration.",
         "level_note": "Requests are matched by unique port; the responder logs its decision before replying.",
     },
     "C16": {
@@ -118,7 +118,7 @@ TEXT = {
         "engine": "vmux (MICRO, Miri in thorough)",
         "technique": "runtime monitor over hook-level interleavings: turn-taking scheduler enumerates every total order of hook events on real threads; free-running two-thread stress judged by exact credit conservation; Miri (UB / data-race / weak-memory interpreter) on a sample",
         "design_ref": "DESIGN.md §4 C12, appendix A",
-        "level_text": "All total orders of the hook events of 1-2 writer polls against acknowledge and/or close on other threads are executed for real (30 configurations, depth-first by replay) and judged by the final-state oracle W1-W4 (conservation, no lost wake-up, fail after close, frame only with credit). A free-running writer thread against a granting thread (20 000 grants per round) is judged by exact conservation. Exhaustive at hook granularity in the thorough tier; exploration below that granularity.",
+        "level_text": "All total orders of the hook events of 1-2 writer polls against acknowledge and/or close on other threads are executed for real (42 configurations, also with a third application thread calling the public do_shutdown(); depth-first by replay) and judged by the final-state oracle W1-W4 (conservation, no lost wake-up, fail after close, frame only with credit). A free-running writer thread against a granting thread (20 000 grants per round) is judged by exact conservation. Exhaustive at hook granularity in the thorough tier; exploration below that granularity.",
         "level_note": "Interleavings between hook points and non-x86 memory-model behaviours are only sampled (Miri, repeated native runs).",
     },
     "C13": {
